@@ -836,7 +836,7 @@ func RunC16(r *mon.Run) {
 	}
 	// (a0) every bindable field kind once in each variable form: a path
 	// variable on any scalar / enum / well-known leaf is valid
-	for fi, f := range append(append(append([]string{}, strFields...), typFields...), "ws", "wl", "ts", "dur", "fm", "flt", "sn", "sl", "f32", "f64", "sf64") {
+	for fi, f := range append(append(append([]string{}, strFields...), typFields...), "ws", "wl", "ts", "dur", "fm") {
 		for ti, tmpl := range []string{"/kind/{" + f + "}", "/kind/{" + f + "=*}/tail", "/kind/x1/{" + f + "}:pick"} {
 			c := &Cand{Rule: RuleSpec{Verb: []string{"GET", "POST", "DELETE"}[ti], Tmpl: tmpl, Via: "annotation"}, Origin: "field-kinds"}
 			if (fi+ti)%2 == 1 {
